@@ -1017,6 +1017,11 @@ def generate(rng: random.Random, profile: Optional[Dict[str, Any]] = None) -> Di
             rng.shuffle(case["paths"])
             case["tree_meta"] = {"clients": tree["clients"]}
             case["safe"] = rng.random() < 0.3
+            if rng.random() < 0.2:
+                # shape (ii): libraries and clients formatted together, safe mode keeps the libraries' surface
+                case["safe"] = True
+                case["paths"] = ["<ROOT>"]
+                case["tree_meta"]["whole_tree"] = True
             if rng.random() < 0.35:
                 # an earlier run of the same process formatted *another* project (other directory) whose
                 # modules have the same names but another layout
@@ -1313,7 +1318,7 @@ def execute(case: Dict[str, Any]) -> Dict[str, Any]:
         elif case["profile"] == "imports":
             from . import e3_profiles as P
 
-            violations += P.imports_check(case, ref, stats)
+            violations += (P.imports_check_whole_tree if case["tree_meta"].get("whole_tree") else P.imports_check)(case, ref, stats)
         for ri, s in enumerate(case["runs"]):
             spec = {
                 "root": root, "files": case["files"], "phase1_files": case.get("phase1_files"), "other_tree_first": case.get("other_tree_first"),
@@ -1344,7 +1349,7 @@ def execute(case: Dict[str, Any]) -> Dict[str, Any]:
             elif case["profile"] == "imports":
                 from . import e3_profiles as P
 
-                violations += P.imports_check(case, run, stats)
+                violations += (P.imports_check_whole_tree if case["tree_meta"].get("whole_tree") else P.imports_check)(case, run, stats)
             if case["profile"] == "converge" and not violations and run["outcome"][0] == "ok":
                 violations += converge_check(case, s, spec, run, root, stats)
             if violations and not case.get("keep_going"):
